@@ -9,6 +9,26 @@ CHECKS = {
         note="Trusted: the simulator's executor/clock/id shims, hook H1 (live dump reads the cache only). Assumes a monotone clock and in-process clients; storage errors are not injected.",
         technique="deterministic simulation: seeded schedule search + quiescence invariant + bounded liveness",
         ref="DESIGN.md §6 C01"),
+    "C02": dict(
+        text="Seeded search over generated programs x scripted clients using all ten action kinds (duplicates, missing/extra options) x an adversary aiming any action at any task ever seen, under seeded schedules; a monitor over the complete trace of task state writes (hook H2) checks stage monotonicity, finality of terminal states and the single catch exception. Sampling: evidence, not proof.",
+        note="Trusted: hook H2 reports every state write (Task::set_state/set_pure_state are the only writers); simulator shims. Layer 1: client calls are atomic with respect to engine tasks (racing threads are C05's layer-2 part).",
+        technique="deterministic simulation: seeded schedule + adversarial client histories, transition-trace monitor",
+        ref="DESIGN.md §6 C02"),
+    "C03": dict(
+        text="Seeded search over programs with sequential and parallel structure x clients that abort/skip/error/back/cancel/submit/remove in one branch while siblings are open, plus late adversary actions; at every quiescent point the live dump (H1), the stored rows and the event stream are checked: completed composites have only terminal tasks beneath them, process state = root state (live and stored), exactly one start and one terminal event, nothing open and nothing accepted after a non-error ending. Sampling: evidence, not proof.",
+        note="Trusted: H1 live dump, simulator quiescence. Hierarchy is judged at quiescent points, not at the instant of each write. back/cancel are not combined with generator acts (DESIGN.md §10).",
+        technique="deterministic simulation: seeded schedule + client histories, invariants at quiescent points",
+        ref="DESIGN.md §6 C03"),
+    "C05": dict(
+        text="(a) Admission matrix on layer 1: every client/adversary action issued at a quiescent point is judged against the live dump before it (unknown pid/tid, wrong task kind, terminal act, missing declared output => must be Err) and a rejected action must leave live tasks, rows and streams identical between the two bracketing quiescent points. (b) racing client threads (layer 2) is listed in DESIGN.md and lands with hook H3. Sampling: evidence, not proof.",
+        note="Trusted: H1 live dump; layer 1 treats one client call as atomic. The at-most-once clause is exercised by duplicate (retried) calls here and by preemptive threads in part (b).",
+        technique="deterministic simulation: seeded adversarial action matrix, before/after state comparison at quiescent points",
+        ref="DESIGN.md §6 C05"),
+    "C08": dict(
+        text="Seeded search over programs (control flow, catches, generated acts) x clients using all action kinds x dispatch interleavings (every message dispatch is an independently scheduled task): the complete stream of a match-all channel is checked against the H2 trace and live dumps for multiplicity per task, created-before-terminal and parent-before-child in generation order (id shim), completeness, field agreement, unique ids. Sampling: evidence, not proof.",
+        note="Trusted: id shim sequence numbers as generation order; H2 trace for final states. Delivery order of independently dispatched messages is not constrained (the statement speaks of generation).",
+        technique="deterministic simulation: seeded dispatch interleavings, stream/trace consistency monitor",
+        ref="DESIGN.md §6 C08"),
 }
 
 NOT_APPLICABLE = {
